@@ -206,7 +206,9 @@ def requested_maps(fam: Family, labels, km: str, vm: str):
 def check_writer(fam: Family, tree, labels, opts) -> list:
     km, vm, metaname = opts
     k_arg, v_arg, k_exp, v_exp = requested_maps(fam, labels, km, vm)
-    meta = copy.deepcopy(USER_META) if metaname == "meta" else None
+    meta = copy.deepcopy(USER_META) if metaname in ("meta", "filemeta") else None
+    if metaname == "filemeta":
+        meta = {"$generator": "nutree/0.0.1", "$format_version": "0.1", "$key_map": {"data_id": "i", "str": "s", "stale": "x"}, "$value_map": {"kind": ["stale1", "stale2"], "stale": ["y"]}, **meta}
     kw = dict(key_map=k_arg, value_map=v_arg, meta=meta)
     if fam.save_mapper is not None:
         kw["mapper"] = fam.save_mapper
@@ -320,7 +322,7 @@ def header_variants(fam: Family, labels):
     """(name, key_map, value_map) header variants of documents 'written by other means'."""
     customs = fam.value_maps(labels)
     vm_custom = copy.deepcopy(customs["custom"])
-    kinds_vm = {"kind": ["k2", "unused", "k1"]} if fam.typed else {}
+    kinds_vm = {"kind": ["k2", "unused", "", "k1"]} if fam.typed else {}
     other_short = {k: "_" + v.upper() for k, v in DOC_KEY_MAP[fam.name].items()} or dict(fam.key_custom)
     return [
         ("plain", {}, {}),
@@ -619,7 +621,9 @@ def case_list(tier: str):
 
 
 def writer_opts(fam: Family):
-    return [(k, v, m) for k in fam.km_names for v in fam.value_map_names() for m in ("none", "meta")]
+    # "filemeta": the user metadata is the `file_meta` dict of an earlier load() -- it also holds the *reserved* entries of
+    # that other document (generator, version, its key / value maps), which must not shadow the ones of this document
+    return [(k, v, m) for k in fam.km_names for v in fam.value_map_names() for m in ("none", "meta", "filemeta")]
 
 
 def func_w(fam):
